@@ -39,7 +39,7 @@ def _worker(pid: str, tier: str, seed: int, shard: int, nshards: int, out: str) 
     coverage = AnchorCoverage(_anchor_files(pid))
     try:
         with coverage:
-            asyncio.run(mod.run(ctx))
+            asyncio.run(mod.run(ctx), loop_factory=_loop_factory(mode))
     except core.Inconclusive as inc:
         status, reason = "inconclusive", str(inc)
     except BaseException:  # pylint:disable=broad-except
@@ -63,13 +63,27 @@ def shard_mode(i: int, nshards: int) -> str:
     """
     The deployment a shard imitates. Shard 0 is always the plain interpreter; with more shards some run under `python -O`
     (asserts stripped, __debug__ False) and / or with every logger of the library switched on down to level 1 and a handler that
-    formats each record. Neither changes what correct code does - both are ways real installations run - so neither can raise a
+    formats each record, and / or with an event loop that creates its tasks eagerly (asyncio.eager_task_factory). None of them changes what correct code does - all are ways real installations run - so none can raise a
     false alarm; a change whose damage only shows there (work done inside an assert, a log statement that consumes a generator
     or formats with side effects) is seen.
     """
     if nshards < 2:
         return "plain"
-    return ("plain", "optimized+logging", "logging", "optimized")[i % 4]
+    return ("plain", "optimized+logging+eager", "logging", "optimized+eager")[i % 4]
+
+
+def _loop_factory(mode: str):
+    """VERIF_EAGER_TASKS=1 (experiment) / mode containing "eager": the event loop creates its tasks with asyncio.eager_task_factory
+    (Python 3.12: a task runs synchronously up to its first suspension when it is created)"""
+    if "eager" not in mode and os.environ.get("VERIF_EAGER_TASKS") != "1":
+        return None
+
+    def factory():
+        loop = asyncio.new_event_loop()
+        loop.set_task_factory(asyncio.eager_task_factory)
+        return loop
+
+    return factory
 
 
 def _apply_interpreter_mode() -> str:
@@ -98,6 +112,8 @@ def _apply_interpreter_mode() -> str:
         got.append("optimized")
     if "logging" in want:
         got.append("logging")
+    if "eager" in want or os.environ.get("VERIF_EAGER_TASKS") == "1":
+        got.append("eager")
     return "+".join(got) or "plain"
 
 
@@ -131,7 +147,7 @@ def _replay(pid: str, path: str) -> int:
     mod = importlib.import_module(f"vf.checks.{pid.lower()}")
     _apply_interpreter_mode()
     ctx = core.Ctx(pid, witness.get("tier", "quick"), int(witness.get("seed", 0)), replaying=True)
-    asyncio.run(mod.replay(ctx, witness["phase"], core.unjson(witness["case"])))
+    asyncio.run(mod.replay(ctx, witness["phase"], core.unjson(witness["case"])), loop_factory=_loop_factory(mode))
     known = core.load_known_findings()
     if not ctx.violations:
         print(f"replay of {path}: not reproduced (property held on this case)")
